@@ -170,7 +170,9 @@ CHECKS = {
             "unchanged, store inside the object) and C10_set_leaf_again (closure under sequences of assignments); "
             "C10_scalar_set_get / C10_scalar_frame, C10_other_parts_unchanged(_string)_partial (any object whose extent is disjoint "
             "from the assigned slot reads as before), C10_sizes_unchanged. leafAt / updAt are executed against the library on every "
-            "generated scalar assignment.",
+            "generated scalar assignment. C10_node_update (reference-graph proof model, component rg): `_update` of a node from a node "
+            "of the same class allocates nothing, makes the fields agree (references: the same referents), keeps the reference-graph "
+            "invariant - no reference of any other node is disturbed.",
             "Partial: whole nested struct/array assignment and paths through references are byte-level theorems (C11) + tie + oracle; "
             "assignments interleaved with buffer growth rest on C04 (bytes preserved) + C01_read_local; known finding O-30 (earlier "
             "views keep stale cached offsets after a same-size replacement that divides the element differently).",
@@ -193,9 +195,21 @@ CHECKS = {
             "C08_copy_fresh (referents created for plain data or foreign objects are placed by the allocator: in bounds and disjoint "
             "from every live object), C08_alias_value (value level: what is read through a reference is the referent's value; a "
             "store of any scalar element of the referent - through the reference, the original handle or another reference - is "
-            "read by all of them as exactly that element replaced, and the reference still denotes the same object).",
-            "Partial: the invariant over whole histories (every non-null reference of every live object resolves to a live object "
-            "of the recorded member type) is established by the oracle on generated histories, not by induction in Lean.",
+            "read by all of them as exactly that element replaced, and the reference still denotes the same object). "
+            "History level (proof model Xo/Model/RefGraph.lean, executed against the library as component rg): C08_ref_history - for "
+            "every universe of node classes (static structs of 8-byte scalars, Ref and UnionRef fields), every initial capacity, "
+            "power-of-two alignment and grow step, and EVERY finite history of construct / bind-to-existing / bind-to-value (= "
+            "foreign object) / bind-to-null / write-through-original / write-through-ref / copy / other allocations / growth whose "
+            "capacity stays below 2^62, the invariant holds: allocator invariant with the nodes as live regions, and every reference "
+            "slot of every live node is null (member index -1) or denotes the start of a live node of the declared / recorded member "
+            "class; C08_refs_resolve (the same spelled out: inside the storage, disjoint from every other live region), "
+            "C08_bind_existing_aliases (nothing allocated, no byte outside the slot changes, the reference denotes that very "
+            "object), C08_bind_value_fresh (a new node of the member class, disjoint from everything live before), "
+            "C08_through_ref_same_address (the address computed through the reference for field j IS the address of field j of the "
+            "live original), C08_bind_null.",
+            "Partial: the history invariant is a theorem for node classes inside one buffer; for references held in arrays and "
+            "dynamic structs, referents that are arrays, and several buffers it is established by the oracle on generated histories "
+            "against the executable heap model, not by induction in Lean.",
             "7/C08"),
     "C09": ("Lean 4 proof: window-translation lemma for patch application + the agreement-strengthened round trip => the byte copy "
             "of a written object reads as the same value anywhere; frame lemma for independence; executable heap model tied on all "
@@ -204,9 +218,12 @@ CHECKS = {
             "ANY destination memory at ANY offset with room - same buffer, other buffer, other context - reads as the source's value, "
             "and the source still does), C09_source_unaffected (writes inside the disjoint extent of the copy never change what the "
             "source reads), C09_writes_do_not_show_through (copy inside ONE buffer at a disjoint extent: both read the value; a store "
-            "of any scalar element of either is read by it as exactly that element replaced and leaves the other's value untouched).",
-            "Partial: types holding references are rebuilt field-/item-wise (same referent in the same buffer, duplicated referent "
-            "otherwise): executable model + oracle only.",
+            "of any scalar element of either is read by it as exactly that element replaced and leaves the other's value untouched), "
+            "C09_copy_shares_referents (node model of C08: a copy constructed inside the same buffer is a fresh node whose scalars "
+            "have the source's values and whose references denote the SAME referents - re-encoded relative to the new slots - and "
+            "the reference-graph invariant holds again).",
+            "Partial: copies of reference-holding types into ANOTHER buffer (duplicated referents) and of arrays / dynamic structs "
+            "holding references: executable heap model + oracle only.",
             "7/C09"),
     "C17": ("Lean 4 proof of the decision logic (positional refused, arity assertion, lookup by name) and address arithmetic "
             "(current storage + offset, first element of slices, offset + data offset) of the kernel call path; echo kernels "
